@@ -8,22 +8,49 @@ get_thread_id()/get_num_threads() are controlled by pyvc (thread-id oracle).
 import sys as _sys
 __version__ = "0.0-pyvc-shim"
 
+class NT(int):
+    """get_num_threads() under the symbolic schedule oracle: an int that the numpy shim recognises as the
+    leading dimension of a per-thread scratch buffer"""
+
+
+class Tid:
+    """get_thread_id() under the symbolic schedule oracle: the (unknown) thread of ONE prange iteration"""
+    _pyvc_symbolic = True
+
+    def __init__(self, loop, it):
+        self.loop, self.it = loop, it
+
+    def __repr__(self):
+        return "Tid(loop=%s, iter=%s)" % (self.loop, self.it)
+
+
 class _ThreadOracle:
-    # pyvc sets these to explore schedules: tid(i) for the i-th call
     num_threads = 1
-    tid_fn = None
-    calls = 0
+    symbolic = False          # True: symbolic iteration->thread assignment (pyvc schedule obligations)
+    stack = []                # active prange iterations (loop id, iteration)
+    loops = 0
+    violations = []           # structural race findings
+    tid_calls = 0
+
+    def reset(self, symbolic=False, num_threads=1):
+        self.symbolic, self.num_threads = symbolic, num_threads
+        self.stack, self.loops, self.violations, self.tid_calls = [], 0, [], 0
 oracle = _ThreadOracle()
 
 def get_num_threads():
+    if oracle.symbolic:
+        return NT(oracle.num_threads)
     return oracle.num_threads
 
 def get_thread_id():
-    i = oracle.calls
-    oracle.calls += 1
-    if oracle.tid_fn is None:
+    oracle.tid_calls += 1
+    if not oracle.symbolic:
         return 0
-    return oracle.tid_fn(i)
+    if not oracle.stack:
+        oracle.violations.append("get_thread_id() called outside any prange iteration: one id shared by all iterations")
+        return Tid(-1, -1)
+    lp, it = oracle.stack[-1]
+    return Tid(lp, it)
 
 def set_num_threads(n):
     oracle.num_threads = int(n)
@@ -43,6 +70,10 @@ def njit(*args, **kwargs):
     if len(args) == 1 and callable(args[0]) and not isinstance(args[0], _TypeStub) and not kwargs:
         return _wrap(args[0])
     def deco(f):
+        try:
+            f._pyvc_njit_options = dict(kwargs)
+        except Exception:
+            pass
         return _wrap(f)
     return deco
 
@@ -51,7 +82,18 @@ vectorize = njit
 guvectorize = njit
 generated_jit = njit
 def prange(*a):
-    return range(*a)
+    if not oracle.symbolic:
+        return range(*a)
+    def gen():
+        lp = oracle.loops
+        oracle.loops += 1
+        for i in range(*a):
+            oracle.stack.append((lp, i))
+            try:
+                yield i
+            finally:
+                oracle.stack.pop()
+    return gen()
 
 class _TypeStub:
     """numba.types.X: callable (signatures), subscriptable (array types)."""
